@@ -315,7 +315,7 @@ func quickSet(c *chain) []*scenario {
 		h int64
 	}{
 		{"forge-otherset", changeHeight}, {"forge-otherset", changeHeight + 1}, {"forge-oldmajority", changeHeight + 1},
-		{"forge-exact23", changeHeight + 1}, {"forge-exact23", 1}, {"forge-nonvalidators", 1}, {"lc-insufficient", changeHeight + 2}, {"lc-insufficient", 2},
+		{"forge-exact23", changeHeight + 1}, {"forge-exact23", 1}, {"forge-nonvalidators", 1}, {"forge-prevotes-as-commit", 1}, {"forge-prevotes-as-commit", changeHeight + 1}, {"forge-one-vote-every-slot", 1}, {"lc-insufficient", changeHeight + 2}, {"lc-insufficient", 2},
 		{"lc-nil-block", changeHeight + 2}, {"tx-changed+fix", 5}, {"tx-added+fix", 1}, {"tx-added+fix", changeHeight + 1},
 		{"lc-nil", 2}, {"lc-nil", 6}, {"big-hangup", 1}, {"big-hangup", 3}, {"lc-all-nil", 2}, {"lc-all-nil", changeHeight + 2}, {"hdr-extra", 1}, {"lc-removed", 6},
 	}
